@@ -334,8 +334,9 @@ def sync_streams(src, dst):
                         ld.arm_to_model[a].rng = memo[id(r)]
 
 
-def compare_on_copies(env, tag, b1, b2, ctxd, m=1, kinds=('expectations', 'predict'), kf=None):
-    """isolated blocks: deep copies of the two bandits answer the same symbolic query; outputs must be equal"""
+def compare_on_copies(env, tag, b1, b2, ctxd, m=1, kinds=('expectations', 'predict'), kf=None, alt_sync=False):
+    """isolated blocks: deep copies of the two bandits answer the same symbolic query; outputs must be equal.
+    kf + alt_sync: listed known finding whose bug-compatible reference is b2 with b1's generator positions"""
     import copy as _copy
     for what in kinds:
         t = '%s.%s' % (tag, what[:4])
@@ -343,5 +344,13 @@ def compare_on_copies(env, tag, b1, b2, ctxd, m=1, kinds=('expectations', 'predi
         def blk(t=t, what=what):
             c1, c2 = _copy.deepcopy(b1), _copy.deepcopy(b2)
             q = env.reals('q_%s' % t, (m, ctxd)) if ctxd else None
-            outputs_equal(env, t, ask(c1, what, q), ask(c2, what, q), kf)
+            alt = None
+            if kf and alt_sync:
+                c3 = _copy.deepcopy(b2)
+                sync_streams(c1, c3)
+                o1 = ask(c1, what, q)
+                alt = ask(c3, what, q)
+                outputs_equal(env, t, o1, ask(c2, what, q), kf, alt)
+            else:
+                outputs_equal(env, t, ask(c1, what, q), ask(c2, what, q), kf)
         env.isolated(t, blk)
